@@ -129,4 +129,27 @@ example : ∃ p : Cog16.P, Cog16.L0.WellDefined p 1 1 ∧ 0 < p.u0 ∧ p.geometr
   · norm_num
   · norm_num
 
+/-! ### The returned (tree-level) fields
+
+The traced decision tree has a single leaf and no path condition: the returned fields *are* those
+of leaf 0 (definitionally), so the leaf theorems are statements about what the solver returns. -/
+
+theorem cog16_tree : Cog16.density = Cog16.L0.density ∧ Cog16.velocity = Cog16.L0.velocity
+    ∧ Cog16.temperature = Cog16.L0.temperature ∧ ∀ p r t, Cog16.outcome p r t = .ok := ⟨rfl, rfl, rfl, fun _ _ _ => rfl⟩
+
+theorem cog16_mass_tree (p : Cog16.P) (r t : ℝ) (hr : 0 < r) :
+    massRes (Cog16.density p) (Cog16.velocity p) (p.geometry - 1) r t = 0 :=
+  cog16_mass p r t hr
+
+theorem cog16_momentum_tree (p : Cog16.P) (r t : ℝ) (hwd : Cog16.L0.WellDefined p r t) :
+    momResT (Cog16.density p) (Cog16.velocity p) (Cog16.temperature p) p.Gamma r t = 0 :=
+  cog16_momentum p r t hwd
+
+theorem cog16_energy_tree (p : Cog16.P) (r t : ℝ) (hwd : Cog16.L0.WellDefined p r t) (hu0 : 0 < p.u0)
+    (hk : p.geometry - 1 ≠ 0) :
+    energyResT (Cog16.density p) (Cog16.velocity p) (Cog16.temperature p)
+      p.Gamma p.gamma (p.geometry - 1) 29970000000 (686 / 5) p.lambda0
+      (1 - 1 / (p.geometry - 1)) ((1 - 1 / (p.geometry - 1)) / 2 - 3) r t = 0 :=
+  cog16_energy p r t hwd hu0 hk
+
 end EPV.C01
